@@ -559,6 +559,8 @@ def rule_selection(ctx: Ctx) -> None:
 
 
 def run(ctx: Ctx) -> None:
+    from rules import generic as _G
+    ctx.run(_G.rule_arity, ("perception_eval.tool",), "R-ARITY", 60)
     ctx.run(rule_emission)
     ctx.run(rule_fields)
     ctx.run(rule_errors)
